@@ -2,9 +2,10 @@ import RQ.Lemmas.RoundTrip
 /-!
 # C12 — write-then-parse preserves a parsed patch; writing is a fixed point
 
-`C12_full` is the property as stated.  It is **false** for one documented class (known finding
-`hunkless-noop-vanishes`, witness below), so the proved theorem is `C12_partial`, with that class as an
-explicit decidable hypothesis.
+`C12_full` is the property as stated.  It is **false** for two documented classes (known findings
+`hunkless-noop-vanishes`, witness below, and `dev-null-named-file`: a real name that becomes `/dev/null`
+only after stripping), so the proved theorem is `C12_partial`, with those classes as explicit decidable
+hypotheses.
 -/
 namespace RQ.Write
 open RQ RQ.Parse
@@ -14,10 +15,10 @@ def C12_full : Prop :=
   ∀ (bs : Bytes) (strip : Nat) (wh : Bool) (p : Patch), parsePatch bs strip wh = .ok p →
     ∃ p', parsePatch (writePatch p) 0 true = .ok p' ∧ SamePatch p p' ∧ writePatch p' = writePatch p
 
-/-- **C12 (partial)**: for every accepted patch none of whose file patches is a hunk-less no-op, the
-written form is accepted and describes the same patch. -/
+/-- **C12 (partial)**: for every accepted patch none of whose file patches is a hunk-less no-op or has
+a real name equal to `/dev/null`, the written form is accepted and describes the same patch. -/
 theorem C12_partial (bs : Bytes) (strip : Nat) (wh : Bool) (p : Patch) (h : parsePatch bs strip wh = .ok p)
-    (hk : ∀ fp ∈ p.fps, noopHunkless fp = false) :
+    (hk : ∀ fp ∈ p.fps, noopHunkless fp = false) (hn : ∀ fp ∈ p.fps, nullNamed fp = false) :
     ∃ p', parsePatch (writePatch p) 0 true = .ok p' ∧ SamePatch p p' := by
   sorry
 
